@@ -25,6 +25,7 @@ from jsim.envs.base import Adapter
 
 class A(Adapter):
     name = "MMST"
+    run_scale = 1
     mask_mode = "per_agent"
     fork_every = 4
     has_reaction = True
